@@ -70,7 +70,11 @@ Inductive event :=
 | EConnCb (status : Z)                    (* connect_cb *)
 | EWrite2 (id : nat)                       (* the uv_write call just traced was uv_write2 with a send_handle *)
 | EFd (id : nat)                           (* the sendmsg that accepted the next chunk carried SCM_RIGHTS *)
-| EFdFail (id : nat).                      (* a sendmsg carrying SCM_RIGHTS failed (EAGAIN or error) *)                           (* uv_stream_get_write_queue_size after a top-level step *)
+| EFdFail (id : nat)
+| EConnect (code : Z)                     (* uv_tcp_connect / uv_pipe_connect called again on the handle, and what it returned *)
+| EReopen.                                (* that call set UV_HANDLE_WRITABLE on a stream where it was clear (ghost) *)
+(* EFdFail: a sendmsg carrying SCM_RIGHTS failed (EAGAIN or error);
+   EQ: uv_stream_get_write_queue_size after a top-level step *)
 
 Record st := mkSt {
   wq : list req;        (* stream->write_queue *)
@@ -96,33 +100,41 @@ Record st := mkSt {
   derr : Z;             (* stream->delayed_error (0 or -errno) *)
   sockerr : list Z;     (* answers of getsockopt(SO_ERROR) still to come (errno values, 115 = EINPROGRESS) *)
   ipc : bool;           (* the ipc field of the uv_pipe_t *)
-  sh_open : bool        (* the handle offered to uv_write2: its fd >= 0 and it is not closing *)
+  sh_open : bool;       (* the handle offered to uv_write2: its fd >= 0 and it is not closing *)
+  connected : bool;     (* the kernel has the socket connected (what connect(2)/shutdown(2) can answer depends on it) *)
+  is_tcp : bool;        (* uv_tcp_t (else uv_pipe_t): which connect function a retry goes through *)
+  readable : bool;      (* UV_HANDLE_READABLE (only read by uv_pipe_connect2's "not opened yet" test) *)
+  connres : list (option positive)   (* results of the connect(2) calls of later uv_*_connect calls (None = 0/EINPROGRESS) *)
 }.
 
-Definition set_wq v s := mkSt v (cq s) (pq s) (wqs s) (shutreq s) (writable s) (shut s) (closing s) (closed s) (blocking s) (fdopen s) (armed s) (fed s) (oracle s) (shutans s) (pollw s) (next_id s) (cbn s) (tr s) (connecting s) (derr s) (sockerr s) (ipc s) (sh_open s).
-Definition set_cq v s := mkSt (wq s) v (pq s) (wqs s) (shutreq s) (writable s) (shut s) (closing s) (closed s) (blocking s) (fdopen s) (armed s) (fed s) (oracle s) (shutans s) (pollw s) (next_id s) (cbn s) (tr s) (connecting s) (derr s) (sockerr s) (ipc s) (sh_open s).
-Definition set_pq v s := mkSt (wq s) (cq s) v (wqs s) (shutreq s) (writable s) (shut s) (closing s) (closed s) (blocking s) (fdopen s) (armed s) (fed s) (oracle s) (shutans s) (pollw s) (next_id s) (cbn s) (tr s) (connecting s) (derr s) (sockerr s) (ipc s) (sh_open s).
-Definition set_wqs v s := mkSt (wq s) (cq s) (pq s) v (shutreq s) (writable s) (shut s) (closing s) (closed s) (blocking s) (fdopen s) (armed s) (fed s) (oracle s) (shutans s) (pollw s) (next_id s) (cbn s) (tr s) (connecting s) (derr s) (sockerr s) (ipc s) (sh_open s).
-Definition set_shutreq v s := mkSt (wq s) (cq s) (pq s) (wqs s) v (writable s) (shut s) (closing s) (closed s) (blocking s) (fdopen s) (armed s) (fed s) (oracle s) (shutans s) (pollw s) (next_id s) (cbn s) (tr s) (connecting s) (derr s) (sockerr s) (ipc s) (sh_open s).
-Definition set_writable v s := mkSt (wq s) (cq s) (pq s) (wqs s) (shutreq s) v (shut s) (closing s) (closed s) (blocking s) (fdopen s) (armed s) (fed s) (oracle s) (shutans s) (pollw s) (next_id s) (cbn s) (tr s) (connecting s) (derr s) (sockerr s) (ipc s) (sh_open s).
-Definition set_shut v s := mkSt (wq s) (cq s) (pq s) (wqs s) (shutreq s) (writable s) v (closing s) (closed s) (blocking s) (fdopen s) (armed s) (fed s) (oracle s) (shutans s) (pollw s) (next_id s) (cbn s) (tr s) (connecting s) (derr s) (sockerr s) (ipc s) (sh_open s).
-Definition set_closing v s := mkSt (wq s) (cq s) (pq s) (wqs s) (shutreq s) (writable s) (shut s) v (closed s) (blocking s) (fdopen s) (armed s) (fed s) (oracle s) (shutans s) (pollw s) (next_id s) (cbn s) (tr s) (connecting s) (derr s) (sockerr s) (ipc s) (sh_open s).
-Definition set_closed v s := mkSt (wq s) (cq s) (pq s) (wqs s) (shutreq s) (writable s) (shut s) (closing s) v (blocking s) (fdopen s) (armed s) (fed s) (oracle s) (shutans s) (pollw s) (next_id s) (cbn s) (tr s) (connecting s) (derr s) (sockerr s) (ipc s) (sh_open s).
-Definition set_blocking v s := mkSt (wq s) (cq s) (pq s) (wqs s) (shutreq s) (writable s) (shut s) (closing s) (closed s) v (fdopen s) (armed s) (fed s) (oracle s) (shutans s) (pollw s) (next_id s) (cbn s) (tr s) (connecting s) (derr s) (sockerr s) (ipc s) (sh_open s).
-Definition set_fdopen v s := mkSt (wq s) (cq s) (pq s) (wqs s) (shutreq s) (writable s) (shut s) (closing s) (closed s) (blocking s) v (armed s) (fed s) (oracle s) (shutans s) (pollw s) (next_id s) (cbn s) (tr s) (connecting s) (derr s) (sockerr s) (ipc s) (sh_open s).
-Definition set_armed v s := mkSt (wq s) (cq s) (pq s) (wqs s) (shutreq s) (writable s) (shut s) (closing s) (closed s) (blocking s) (fdopen s) v (fed s) (oracle s) (shutans s) (pollw s) (next_id s) (cbn s) (tr s) (connecting s) (derr s) (sockerr s) (ipc s) (sh_open s).
-Definition set_fed v s := mkSt (wq s) (cq s) (pq s) (wqs s) (shutreq s) (writable s) (shut s) (closing s) (closed s) (blocking s) (fdopen s) (armed s) v (oracle s) (shutans s) (pollw s) (next_id s) (cbn s) (tr s) (connecting s) (derr s) (sockerr s) (ipc s) (sh_open s).
-Definition set_oracle v s := mkSt (wq s) (cq s) (pq s) (wqs s) (shutreq s) (writable s) (shut s) (closing s) (closed s) (blocking s) (fdopen s) (armed s) (fed s) v (shutans s) (pollw s) (next_id s) (cbn s) (tr s) (connecting s) (derr s) (sockerr s) (ipc s) (sh_open s).
-Definition set_shutans v s := mkSt (wq s) (cq s) (pq s) (wqs s) (shutreq s) (writable s) (shut s) (closing s) (closed s) (blocking s) (fdopen s) (armed s) (fed s) (oracle s) v (pollw s) (next_id s) (cbn s) (tr s) (connecting s) (derr s) (sockerr s) (ipc s) (sh_open s).
-Definition set_pollw v s := mkSt (wq s) (cq s) (pq s) (wqs s) (shutreq s) (writable s) (shut s) (closing s) (closed s) (blocking s) (fdopen s) (armed s) (fed s) (oracle s) (shutans s) v (next_id s) (cbn s) (tr s) (connecting s) (derr s) (sockerr s) (ipc s) (sh_open s).
-Definition set_next_id v s := mkSt (wq s) (cq s) (pq s) (wqs s) (shutreq s) (writable s) (shut s) (closing s) (closed s) (blocking s) (fdopen s) (armed s) (fed s) (oracle s) (shutans s) (pollw s) v (cbn s) (tr s) (connecting s) (derr s) (sockerr s) (ipc s) (sh_open s).
-Definition set_cbn v s := mkSt (wq s) (cq s) (pq s) (wqs s) (shutreq s) (writable s) (shut s) (closing s) (closed s) (blocking s) (fdopen s) (armed s) (fed s) (oracle s) (shutans s) (pollw s) (next_id s) v (tr s) (connecting s) (derr s) (sockerr s) (ipc s) (sh_open s).
-Definition set_connecting v s := mkSt (wq s) (cq s) (pq s) (wqs s) (shutreq s) (writable s) (shut s) (closing s) (closed s) (blocking s) (fdopen s) (armed s) (fed s) (oracle s) (shutans s) (pollw s) (next_id s) (cbn s) (tr s) v (derr s) (sockerr s) (ipc s) (sh_open s).
-Definition set_derr v s := mkSt (wq s) (cq s) (pq s) (wqs s) (shutreq s) (writable s) (shut s) (closing s) (closed s) (blocking s) (fdopen s) (armed s) (fed s) (oracle s) (shutans s) (pollw s) (next_id s) (cbn s) (tr s) (connecting s) v (sockerr s) (ipc s) (sh_open s).
-Definition set_sockerr v s := mkSt (wq s) (cq s) (pq s) (wqs s) (shutreq s) (writable s) (shut s) (closing s) (closed s) (blocking s) (fdopen s) (armed s) (fed s) (oracle s) (shutans s) (pollw s) (next_id s) (cbn s) (tr s) (connecting s) (derr s) v (ipc s) (sh_open s).
-Definition set_ipc v s := mkSt (wq s) (cq s) (pq s) (wqs s) (shutreq s) (writable s) (shut s) (closing s) (closed s) (blocking s) (fdopen s) (armed s) (fed s) (oracle s) (shutans s) (pollw s) (next_id s) (cbn s) (tr s) (connecting s) (derr s) (sockerr s) v (sh_open s).
-Definition set_sh_open v s := mkSt (wq s) (cq s) (pq s) (wqs s) (shutreq s) (writable s) (shut s) (closing s) (closed s) (blocking s) (fdopen s) (armed s) (fed s) (oracle s) (shutans s) (pollw s) (next_id s) (cbn s) (tr s) (connecting s) (derr s) (sockerr s) (ipc s) v.
-Definition ev (e : event) s := mkSt (wq s) (cq s) (pq s) (wqs s) (shutreq s) (writable s) (shut s) (closing s) (closed s) (blocking s) (fdopen s) (armed s) (fed s) (oracle s) (shutans s) (pollw s) (next_id s) (cbn s) (e :: tr s) (connecting s) (derr s) (sockerr s) (ipc s) (sh_open s).
+Definition set_wq v s := mkSt v (cq s) (pq s) (wqs s) (shutreq s) (writable s) (shut s) (closing s) (closed s) (blocking s) (fdopen s) (armed s) (fed s) (oracle s) (shutans s) (pollw s) (next_id s) (cbn s) (tr s) (connecting s) (derr s) (sockerr s) (ipc s) (sh_open s) (connected s) (is_tcp s) (readable s) (connres s).
+Definition set_cq v s := mkSt (wq s) v (pq s) (wqs s) (shutreq s) (writable s) (shut s) (closing s) (closed s) (blocking s) (fdopen s) (armed s) (fed s) (oracle s) (shutans s) (pollw s) (next_id s) (cbn s) (tr s) (connecting s) (derr s) (sockerr s) (ipc s) (sh_open s) (connected s) (is_tcp s) (readable s) (connres s).
+Definition set_pq v s := mkSt (wq s) (cq s) v (wqs s) (shutreq s) (writable s) (shut s) (closing s) (closed s) (blocking s) (fdopen s) (armed s) (fed s) (oracle s) (shutans s) (pollw s) (next_id s) (cbn s) (tr s) (connecting s) (derr s) (sockerr s) (ipc s) (sh_open s) (connected s) (is_tcp s) (readable s) (connres s).
+Definition set_wqs v s := mkSt (wq s) (cq s) (pq s) v (shutreq s) (writable s) (shut s) (closing s) (closed s) (blocking s) (fdopen s) (armed s) (fed s) (oracle s) (shutans s) (pollw s) (next_id s) (cbn s) (tr s) (connecting s) (derr s) (sockerr s) (ipc s) (sh_open s) (connected s) (is_tcp s) (readable s) (connres s).
+Definition set_shutreq v s := mkSt (wq s) (cq s) (pq s) (wqs s) v (writable s) (shut s) (closing s) (closed s) (blocking s) (fdopen s) (armed s) (fed s) (oracle s) (shutans s) (pollw s) (next_id s) (cbn s) (tr s) (connecting s) (derr s) (sockerr s) (ipc s) (sh_open s) (connected s) (is_tcp s) (readable s) (connres s).
+Definition set_writable v s := mkSt (wq s) (cq s) (pq s) (wqs s) (shutreq s) v (shut s) (closing s) (closed s) (blocking s) (fdopen s) (armed s) (fed s) (oracle s) (shutans s) (pollw s) (next_id s) (cbn s) (tr s) (connecting s) (derr s) (sockerr s) (ipc s) (sh_open s) (connected s) (is_tcp s) (readable s) (connres s).
+Definition set_shut v s := mkSt (wq s) (cq s) (pq s) (wqs s) (shutreq s) (writable s) v (closing s) (closed s) (blocking s) (fdopen s) (armed s) (fed s) (oracle s) (shutans s) (pollw s) (next_id s) (cbn s) (tr s) (connecting s) (derr s) (sockerr s) (ipc s) (sh_open s) (connected s) (is_tcp s) (readable s) (connres s).
+Definition set_closing v s := mkSt (wq s) (cq s) (pq s) (wqs s) (shutreq s) (writable s) (shut s) v (closed s) (blocking s) (fdopen s) (armed s) (fed s) (oracle s) (shutans s) (pollw s) (next_id s) (cbn s) (tr s) (connecting s) (derr s) (sockerr s) (ipc s) (sh_open s) (connected s) (is_tcp s) (readable s) (connres s).
+Definition set_closed v s := mkSt (wq s) (cq s) (pq s) (wqs s) (shutreq s) (writable s) (shut s) (closing s) v (blocking s) (fdopen s) (armed s) (fed s) (oracle s) (shutans s) (pollw s) (next_id s) (cbn s) (tr s) (connecting s) (derr s) (sockerr s) (ipc s) (sh_open s) (connected s) (is_tcp s) (readable s) (connres s).
+Definition set_blocking v s := mkSt (wq s) (cq s) (pq s) (wqs s) (shutreq s) (writable s) (shut s) (closing s) (closed s) v (fdopen s) (armed s) (fed s) (oracle s) (shutans s) (pollw s) (next_id s) (cbn s) (tr s) (connecting s) (derr s) (sockerr s) (ipc s) (sh_open s) (connected s) (is_tcp s) (readable s) (connres s).
+Definition set_fdopen v s := mkSt (wq s) (cq s) (pq s) (wqs s) (shutreq s) (writable s) (shut s) (closing s) (closed s) (blocking s) v (armed s) (fed s) (oracle s) (shutans s) (pollw s) (next_id s) (cbn s) (tr s) (connecting s) (derr s) (sockerr s) (ipc s) (sh_open s) (connected s) (is_tcp s) (readable s) (connres s).
+Definition set_armed v s := mkSt (wq s) (cq s) (pq s) (wqs s) (shutreq s) (writable s) (shut s) (closing s) (closed s) (blocking s) (fdopen s) v (fed s) (oracle s) (shutans s) (pollw s) (next_id s) (cbn s) (tr s) (connecting s) (derr s) (sockerr s) (ipc s) (sh_open s) (connected s) (is_tcp s) (readable s) (connres s).
+Definition set_fed v s := mkSt (wq s) (cq s) (pq s) (wqs s) (shutreq s) (writable s) (shut s) (closing s) (closed s) (blocking s) (fdopen s) (armed s) v (oracle s) (shutans s) (pollw s) (next_id s) (cbn s) (tr s) (connecting s) (derr s) (sockerr s) (ipc s) (sh_open s) (connected s) (is_tcp s) (readable s) (connres s).
+Definition set_oracle v s := mkSt (wq s) (cq s) (pq s) (wqs s) (shutreq s) (writable s) (shut s) (closing s) (closed s) (blocking s) (fdopen s) (armed s) (fed s) v (shutans s) (pollw s) (next_id s) (cbn s) (tr s) (connecting s) (derr s) (sockerr s) (ipc s) (sh_open s) (connected s) (is_tcp s) (readable s) (connres s).
+Definition set_shutans v s := mkSt (wq s) (cq s) (pq s) (wqs s) (shutreq s) (writable s) (shut s) (closing s) (closed s) (blocking s) (fdopen s) (armed s) (fed s) (oracle s) v (pollw s) (next_id s) (cbn s) (tr s) (connecting s) (derr s) (sockerr s) (ipc s) (sh_open s) (connected s) (is_tcp s) (readable s) (connres s).
+Definition set_pollw v s := mkSt (wq s) (cq s) (pq s) (wqs s) (shutreq s) (writable s) (shut s) (closing s) (closed s) (blocking s) (fdopen s) (armed s) (fed s) (oracle s) (shutans s) v (next_id s) (cbn s) (tr s) (connecting s) (derr s) (sockerr s) (ipc s) (sh_open s) (connected s) (is_tcp s) (readable s) (connres s).
+Definition set_next_id v s := mkSt (wq s) (cq s) (pq s) (wqs s) (shutreq s) (writable s) (shut s) (closing s) (closed s) (blocking s) (fdopen s) (armed s) (fed s) (oracle s) (shutans s) (pollw s) v (cbn s) (tr s) (connecting s) (derr s) (sockerr s) (ipc s) (sh_open s) (connected s) (is_tcp s) (readable s) (connres s).
+Definition set_cbn v s := mkSt (wq s) (cq s) (pq s) (wqs s) (shutreq s) (writable s) (shut s) (closing s) (closed s) (blocking s) (fdopen s) (armed s) (fed s) (oracle s) (shutans s) (pollw s) (next_id s) v (tr s) (connecting s) (derr s) (sockerr s) (ipc s) (sh_open s) (connected s) (is_tcp s) (readable s) (connres s).
+Definition set_connecting v s := mkSt (wq s) (cq s) (pq s) (wqs s) (shutreq s) (writable s) (shut s) (closing s) (closed s) (blocking s) (fdopen s) (armed s) (fed s) (oracle s) (shutans s) (pollw s) (next_id s) (cbn s) (tr s) v (derr s) (sockerr s) (ipc s) (sh_open s) (connected s) (is_tcp s) (readable s) (connres s).
+Definition set_derr v s := mkSt (wq s) (cq s) (pq s) (wqs s) (shutreq s) (writable s) (shut s) (closing s) (closed s) (blocking s) (fdopen s) (armed s) (fed s) (oracle s) (shutans s) (pollw s) (next_id s) (cbn s) (tr s) (connecting s) v (sockerr s) (ipc s) (sh_open s) (connected s) (is_tcp s) (readable s) (connres s).
+Definition set_sockerr v s := mkSt (wq s) (cq s) (pq s) (wqs s) (shutreq s) (writable s) (shut s) (closing s) (closed s) (blocking s) (fdopen s) (armed s) (fed s) (oracle s) (shutans s) (pollw s) (next_id s) (cbn s) (tr s) (connecting s) (derr s) v (ipc s) (sh_open s) (connected s) (is_tcp s) (readable s) (connres s).
+Definition set_ipc v s := mkSt (wq s) (cq s) (pq s) (wqs s) (shutreq s) (writable s) (shut s) (closing s) (closed s) (blocking s) (fdopen s) (armed s) (fed s) (oracle s) (shutans s) (pollw s) (next_id s) (cbn s) (tr s) (connecting s) (derr s) (sockerr s) v (sh_open s) (connected s) (is_tcp s) (readable s) (connres s).
+Definition set_sh_open v s := mkSt (wq s) (cq s) (pq s) (wqs s) (shutreq s) (writable s) (shut s) (closing s) (closed s) (blocking s) (fdopen s) (armed s) (fed s) (oracle s) (shutans s) (pollw s) (next_id s) (cbn s) (tr s) (connecting s) (derr s) (sockerr s) (ipc s) v (connected s) (is_tcp s) (readable s) (connres s).
+Definition set_connected v s := mkSt (wq s) (cq s) (pq s) (wqs s) (shutreq s) (writable s) (shut s) (closing s) (closed s) (blocking s) (fdopen s) (armed s) (fed s) (oracle s) (shutans s) (pollw s) (next_id s) (cbn s) (tr s) (connecting s) (derr s) (sockerr s) (ipc s) (sh_open s) v (is_tcp s) (readable s) (connres s).
+Definition set_is_tcp v s := mkSt (wq s) (cq s) (pq s) (wqs s) (shutreq s) (writable s) (shut s) (closing s) (closed s) (blocking s) (fdopen s) (armed s) (fed s) (oracle s) (shutans s) (pollw s) (next_id s) (cbn s) (tr s) (connecting s) (derr s) (sockerr s) (ipc s) (sh_open s) (connected s) v (readable s) (connres s).
+Definition set_readable v s := mkSt (wq s) (cq s) (pq s) (wqs s) (shutreq s) (writable s) (shut s) (closing s) (closed s) (blocking s) (fdopen s) (armed s) (fed s) (oracle s) (shutans s) (pollw s) (next_id s) (cbn s) (tr s) (connecting s) (derr s) (sockerr s) (ipc s) (sh_open s) (connected s) (is_tcp s) v (connres s).
+Definition set_connres v s := mkSt (wq s) (cq s) (pq s) (wqs s) (shutreq s) (writable s) (shut s) (closing s) (closed s) (blocking s) (fdopen s) (armed s) (fed s) (oracle s) (shutans s) (pollw s) (next_id s) (cbn s) (tr s) (connecting s) (derr s) (sockerr s) (ipc s) (sh_open s) (connected s) (is_tcp s) (readable s) v.
+Definition ev (e : event) s := mkSt (wq s) (cq s) (pq s) (wqs s) (shutreq s) (writable s) (shut s) (closing s) (closed s) (blocking s) (fdopen s) (armed s) (fed s) (oracle s) (shutans s) (pollw s) (next_id s) (cbn s) (e :: tr s) (connecting s) (derr s) (sockerr s) (ipc s) (sh_open s) (connected s) (is_tcp s) (readable s) (connres s).
 
 (* How the stream came to be.  [None]: opened connected with uv_pipe_open /
    uv_tcp_open on a read-write descriptor.  [Some (tcp, cres, so)]: right after
@@ -136,7 +148,7 @@ Definition ev (e : event) s := mkSt (wq s) (cq s) (pq s) (wqs s) (shutreq s) (wr
    uv_pipe_connect2: on r == -1 && errno != EINPROGRESS: delayed_error = -errno, the
    flags are not set, POLLOUT not started, uv__io_feed; else uv__stream_open sets
    READABLE|WRITABLE and POLLOUT is started. *)
-Definition conn_cfg := option (bool * option positive * list Z).
+Definition conn_cfg := option (bool * option positive * list Z * list (option positive)).
 
 Definition EINPROGRESS : Z := 115%Z.
 
@@ -146,16 +158,22 @@ Definition conn_pending_ok (cres : option positive) : bool :=
 Definition conn_derr (cres : option positive) : Z :=
   match cres with None => 0%Z | Some e => Zneg e end.
 
+(* [Some (tcp, cres, so, cr)]: first connect(2) result, SO_ERROR answers of all connects,
+   connect(2) results of the later uv_*_connect calls on the handle *)
 Definition init (blk : bool) (o : list answer) (sa : Z) (pw : list bool) (c : conn_cfg) (ip : bool) : st :=
   match c with
   | None => mkSt [] [] [] 0 false true false false false blk true false false o sa pw O O [] false 0%Z [] ip true
-  | Some (tcp, cres, so) =>
+                 true false true []
+  | Some (tcp, cres, so, cr) =>
       if conn_pending_ok cres then
         mkSt [] [] [] 0 false true false false false blk true true false o sa pw O O [] true 0%Z so ip true
+             false tcp true cr
       else if tcp then    (* ECONNREFUSED: delayed_error, POLLOUT started, watcher fed *)
         mkSt [] [] [] 0 false true false false false blk true true true o sa pw O O [] true (conn_derr cres) so ip true
+             false tcp true cr
       else                (* pipe: flags not set, POLLOUT not started, watcher fed *)
         mkSt [] [] [] 0 false false false false false blk true false true o sa pw O O [] true (conn_derr cres) so ip true
+             false tcp false cr
   end.
 
 Fixpoint sumN (l : list N) : N :=
@@ -280,6 +298,7 @@ Inductive op :=
 | OCloseSend                  (* uv_close on the send handle *)
 | OWriteNomem (bufs : list N)   (* uv_write during which uv__malloc fails *)
 | OWrite2Nomem (bufs : list N)  (* uv_write2 with the send handle during which uv__malloc fails *)
+| OConnect                      (* uv_tcp_connect / uv_pipe_connect again on the same handle *)
 | ORun.                 (* one uv_run(UV_RUN_NOWAIT); ignored inside callbacks *)
 
 Definition check_before_write (s : st) : option Z :=
@@ -386,6 +405,40 @@ Definition api_close (s : st) : st :=
   if closing s then s     (* calling uv_close twice is not allowed *)
   else set_fdopen false (set_writable false (set_fed false (set_armed false (set_closing true s)))).
 
+Definition UV_EALREADY : Z := (-114)%Z.
+
+(* uv_tcp_connect / uv_pipe_connect on a handle that already has its socket (a retry after a
+   failed connect).  The connect(2) result is the next entry of [connres].
+   uv__tcp_connect: UV_EALREADY while a connect is pending; maybe_new_socket ors
+   READABLE|WRITABLE into the flags (also when uv_shutdown had cleared WRITABLE: ghost event
+   EReopen); EINPROGRESS/0 -> pending, ECONNREFUSED -> delayed_error + uv__io_feed, any other
+   errno is returned at once; connect_req set, POLLOUT started.
+   uv_pipe_connect2 (existing socket): a connect(2) error becomes delayed_error, POLLOUT is not
+   started, the watcher is fed; else the stream is opened (READABLE|WRITABLE) if it has
+   neither flag yet, POLLOUT started.
+   Not modelled (no-op): a closing handle, a connected stream (the kernel says EISCONN), a
+   second uv_pipe_connect while one is pending. *)
+Definition api_connect (s : st) : st :=
+  if closing s || negb (fdopen s) || connected s then s
+  else if connecting s then (if is_tcp s then ev (EConnect UV_EALREADY) s else s)
+  else
+    let cres := match connres s with [] => None | c :: _ => c end in
+    let s := set_connres (tl (connres s)) s in
+    if is_tcp s then
+      let s1 := if writable s then s else ev EReopen (set_writable true s) in
+      let s1 := set_readable true s1 in
+      if conn_pending_ok cres then
+        ev (EConnect 0%Z) (set_armed true (set_connecting true s1))
+      else if match cres with Some 111%positive => true | _ => false end then
+        ev (EConnect 0%Z) (set_fed true (set_armed true (set_derr (conn_derr cres) (set_connecting true s1))))
+      else ev (EConnect (conn_derr cres)) s1
+    else
+      if conn_pending_ok cres then
+        let s1 := if negb (readable s) && negb (writable s)
+                  then set_readable true (ev EReopen (set_writable true s)) else s in
+        ev (EConnect 0%Z) (set_armed true (set_derr 0%Z (set_connecting true s1)))
+      else ev (EConnect 0%Z) (set_fed true (set_derr (conn_derr cres) (set_connecting true s))).
+
 Definition api (s : st) (o : op) : st :=
   match o with
   | OWrite bufs => api_write s bufs
@@ -396,6 +449,7 @@ Definition api (s : st) (o : op) : st :=
   | OCloseSend => set_sh_open false s
   | OWriteNomem bufs => api_write_nomem s bufs
   | OWrite2Nomem bufs => api_write2_nomem s bufs
+  | OConnect => api_connect s
   | ORun => s
   end.
 
@@ -427,6 +481,10 @@ Definition write_callbacks (s : st) : st :=
   | l => cb_loop l (set_pq l (set_cq [] s))
   end.
 
+(* shutdown(2): the scripted answer on a connected socket, ENOTCONN on one that is not *)
+Definition UV_ENOTCONN_ : Z := (-107)%Z.
+Definition shutdown_answer (s : st) : Z := if connected s then shutans s else UV_ENOTCONN_.
+
 (* uv__drain *)
 Definition drain (s : st) : st :=
   let s1 := if closing s then s else set_armed false s in
@@ -435,9 +493,10 @@ Definition drain (s : st) : st :=
     let s2 := set_shutreq false s1 in
     if closing s2 then run_cb (ev (EShutCb UV_ECANCELED) s2)
     else
-      let s3 := ev (ESysShut (shutans s2)) s2 in
-      if Z.eqb (shutans s3) 0 then run_cb (ev (EShutCb 0%Z) (set_shut true s3))
-      else run_cb (ev (EShutCb (shutans s3)) s3)
+      let ans := shutdown_answer s2 in
+      let s3 := ev (ESysShut ans) s2 in
+      if Z.eqb ans 0 then run_cb (ev (EShutCb 0%Z) (set_shut true s3))
+      else run_cb (ev (EShutCb ans) s3)
   else s1.
 
 (* uv__stream_flush_write_queue(stream, UV_ECANCELED) *)
@@ -459,12 +518,14 @@ Definition stream_connect (s : st) : st :=
        wake-up then runs uv__stream_io, which drains and performs the shutdown) *)
     let s3 := if (error <? 0)%Z || (match wq s2 with [] => true | _ => false end && negb (shutreq s2))
               then set_armed false s2 else s2 in
+    let s3 := if (error <? 0)%Z then s3 else set_connected true s3 in   (* ghost: the kernel's view *)
     let s4 := run_cb (ev (EConnCb error) s3) in             (* req->cb(req, error) *)
     if negb (fdopen s4) then s4                             (* closed in the callback *)
     else if (error <? 0)%Z then
       let s5 := write_callbacks (flush s4) in
-      (* a shutdown queued behind the writes is reported, too (ENOTCONN) *)
-      if fdopen s5 then
+      (* a shutdown queued behind the writes is reported, too (ENOTCONN), unless the callback
+         started another connect: the shutdown then waits with it *)
+      if shutreq s5 && negb (connecting s5) && fdopen s5 then
         match wq s5, cq s5 with [], [] => drain s5 | _, _ => s5 end
       else s5
     else s4.
